@@ -421,7 +421,7 @@ class Executor:
     def load_typed(self, ty, p, where):
         k = ty[0]
         if k == "int":
-            n = sizeof(ty)
+            n = (ty[1] + 7) // 8
             v = self.load(p, n, where)
             if isinstance(v, (Ptr, SymPtr)) or v is UNDEF:
                 return v
@@ -446,7 +446,7 @@ class Executor:
     def store_typed(self, ty, v, p, where):
         k = ty[0]
         if k == "int":
-            n = sizeof(ty)
+            n = (ty[1] + 7) // 8
             if ty[1] < 8 * n and not (isinstance(v, (Ptr, SymPtr)) or v is UNDEF):
                 v = T.t_zext(v, 8 * n) if isinstance(v, Term) else v
             self.store(p, n, v, where)
